@@ -577,6 +577,13 @@ def gen_doe(rng, tier):
             'rng': [[rng.randint(0, 2 ** 31 - 1), rng.randint(0, 50)] for _ in range(2)],
             'second': rng.choice(['fresh', 'fresh', 'rerun']) if fam == 'doe' else 'fresh',
             'faults': [], 'fault_kind': rng.choice(['analysis_error', 'analysis_error', 'runtime_error', 'nan'])}
+    if fam == 'doe' and kind in ('fullfact', 'pb', 'lhs', 'uniform') and len(dvs) >= 2 and rng.random() < 0.3 and \
+            not (kind == 'lhs' and g['criterion'] not in (None, 'center', 'c')):
+        # (pydoe's distance / correlation criteria have preconditions on the number of factors and samples)
+        # one generator object used by two Problems whose design variables differ (nothing in a generator's
+        # configuration belongs to one Problem): the second execution drops one design variable
+        plan['second'] = 'shared'
+        plan['drop'] = rng.randrange(len(dvs))
     if rng.random() < 0.4:
         plan['faults'] = sorted({rng.randint(0, 12) for _ in range(rng.randint(1, 3))})
     return plan
@@ -611,14 +618,16 @@ class C23(Check):
         return gen_doe(rng, tier)
 
     # ----------------------------------------------------------------- building
-    def _make_generator(self, plan, emitted, scratch_tag):
+    def _make_generator(self, plan, emitted, scratch_tag, inner=None):
         import openmdao.api as om
         g = plan['gen']
         fam = plan['family']
         k = g['kind']
         if fam == 'doe':
             import openmdao.drivers.doe_generators as G
-            if k == 'fullfact':
+            if inner is not None:
+                pass
+            elif k == 'fullfact':
                 lv = g['levels']
                 inner = G.FullFactorialGenerator(levels=dict(lv) if isinstance(lv, dict) else lv)
             elif k == 'gsd':
@@ -653,6 +662,7 @@ class C23(Check):
                     for case in inner(design_vars, model):
                         emitted.append([(n, np.array(v, dtype=float).copy()) for n, v in case])
                         yield case
+            self._inner_generator = inner
             return Tap()
         from openmdao.drivers.sampling import pyDOE_generators as P
         from openmdao.drivers.sampling.uniform_generator import UniformGenerator as UG
@@ -694,7 +704,7 @@ class C23(Check):
         gen.__class__ = TapA
         return gen
 
-    def _build(self, plan, emitted, trace, fault_state, tag):
+    def _build(self, plan, emitted, trace, fault_state, tag, inner=None):
         import openmdao.api as om
         dvs = plan['dvs']
 
@@ -719,7 +729,7 @@ class C23(Check):
 
         p = om.Problem(name='d' + tag)
         p.model.add_subsystem('c', Stub(), promotes=['*'])
-        gen = self._make_generator(plan, emitted, tag)
+        gen = self._make_generator(plan, emitted, tag, inner=inner)
         if plan['family'] == 'doe':
             for d in dvs:
                 kw = dict(d['scale'])
@@ -814,6 +824,11 @@ class C23(Check):
                     return
         if k == 'lhs':
             ns = g['samples'] if g['samples'] is not None else nf
+            if g['samples'] is None and plan.get('first_nf') is not None and len(F) == plan['first_nf']:
+                # a generator object that served another Problem first keeps the default sample count (number of
+                # factors) it derived then; the strata law below is judged for the count it emits
+                ns = len(F)
+                probes.inc('lhs_default_sample_count_kept_from_first_problem')
             if len(F) != ns:
                 viol.append({'inv': 'I-23-lhs', 'msg': f"{tag}: latin hypercube with samples={g['samples']} over {nf} factors "
                              f"produced {len(F)} cases"})
@@ -901,7 +916,14 @@ class C23(Check):
             fs = {'n': 0, 'at': set(plan['faults']), 'fired': []}
             try:
                 with contextlib.redirect_stdout(io.StringIO()), contextlib.redirect_stderr(io.StringIO()):
-                    if r == 0 or plan['second'] == 'fresh':
+                    if r == 1 and plan['second'] == 'shared':
+                        plan_r = copy.deepcopy(plan)
+                        del plan_r['dvs'][plan['drop']]
+                        plan_r['first_nf'] = sum(d['n'] for d in plan['dvs'])
+                        p = self._build(plan_r, emitted, trace, fs, str(r), inner=self._inner_generator)
+                        probes.inc('generator_object_shared_by_two_problems')
+                    elif r == 0 or plan['second'] == 'fresh':
+                        plan_r = plan
                         p = self._build(plan, emitted, trace, fs, str(r))
                         holder = {'emitted': emitted, 'trace': trace, 'fs': fs}
                     else:
@@ -933,15 +955,15 @@ class C23(Check):
                 faults.inc(plan['fault_kind'])
             st.inc('cases', len(emitted))
             log.ev('run', r, len(emitted), len(trace), [[(n, v) for n, v in c] for c in emitted][:400])
-            self._laws(plan, emitted, viol, probes, f"run {r}")
+            self._laws(plan_r, emitted, viol, probes, f"run {r}")
             if viol:
                 break
-            if not self._trace_law(plan, emitted, trace, viol, f"run {r}", fs['fired']):
+            if not self._trace_law(plan_r, emitted, trace, viol, f"run {r}", fs['fired']):
                 break
             if fs['fired'] and len(emitted) > max(fs['fired']) + 1:
                 probes.inc('cases_evaluated_after_a_failed_case')
             runs.append(list(emitted))
-        if not viol and len(runs) == 2:
+        if not viol and len(runs) == 2 and plan['second'] != 'shared':
             g = plan['gen']
             seeded = g['kind'] not in ('lhs', 'uniform') or g.get('seed') is not None
             same = len(runs[0]) == len(runs[1]) and all(
@@ -981,7 +1003,19 @@ class C23(Check):
                     c['gen']['levels'].pop(nm, None)
                     if not c['gen']['levels']:
                         c['gen']['levels'] = 2
-                if c['gen']['kind'] != 'bb' or sum(d['n'] for d in c['dvs']) >= 3:
+                nf_ = sum(d['n'] for d in c['dvs'])
+                g_ = c['gen']
+                if g_['kind'] == 'lhs' and g_.get('criterion') in ('maximin', 'm', 'centermaximin', 'cm', 'correlation', 'corr'):
+                    # keep pydoe's preconditions (see gen_doe): >= 3 samples, >= 2 factors for correlation
+                    if (g_['samples'] if g_['samples'] is not None else nf_) < 3 or \
+                            (nf_ < 2 and g_['criterion'] in ('correlation', 'corr')):
+                        continue
+                if c.get('second') == 'shared':
+                    if len(c['dvs']) < 2:
+                        c['second'] = 'fresh'
+                    else:
+                        c['drop'] = min(c.get('drop', 0), len(c['dvs']) - 1)
+                if g_['kind'] != 'bb' or nf_ >= 3:
                     yield c
         for i, d in enumerate(plan['dvs']):
             for key, val in (('scale', {}), ('units', None)):
